@@ -153,4 +153,71 @@ example : ∃ t r, makeBookmarkTree [⟨100, [⟨1, "a", 0, 0, "open"⟩, ⟨3, 
   let ⟨t, r, h1, h2, _⟩ := outline_end_to_end _ (3 / 4) [6, 14] 20 (by decide) rfl
   ⟨t, r, h1, h2⟩
 
+/-! ## where the outline entries point -/
+
+/-- The entry of a bookmark at CSS point `(x, y)` of page `n`: with `transform_pages` it is measured in
+PDF units from the bottom of a page of height `h` … -/
+theorem toEntry_flipped (n : Int) (scale h : Rat) (b : Bookmark) :
+    toEntry n (bookmarkMatrix scale true h) b = ⟨b.level, b.label, ⟨n, b.x * scale, (h - b.y) * scale⟩, b.state⟩ := by
+  simp only [toEntry, bookmarkMatrix, if_true, Matrix.transformPoint]
+  congr 2
+  · grind
+  · grind
+
+/-- … and without it only scaled. -/
+theorem toEntry_plain (n : Int) (scale h : Rat) (b : Bookmark) :
+    toEntry n (bookmarkMatrix scale false h) b = ⟨b.level, b.label, ⟨n, b.x * scale, b.y * scale⟩, b.state⟩ := by
+  simp only [toEntry, bookmarkMatrix, Bool.false_eq_true, if_false, Matrix.transformPoint]
+  congr 2
+  · grind
+  · grind
+
+/-- Every bookmark with its own page: number and height. -/
+def ownPage (scale : Rat) : Nat → List BPage → List Entry
+  | _, [] => []
+  | n, p :: rest =>
+    p.bookmarks.map (fun b => ⟨b.level, b.label, ⟨(n : Int), b.x * scale, (p.height - b.y) * scale⟩, b.state⟩) ++
+      ownPage scale (n + 1) rest
+
+theorem docEntries_ownPage (scale : Rat) (pages : List BPage) :
+    ∀ n, docEntries scale true n pages = ownPage scale n pages := by
+  induction pages with
+  | nil => intro n; rfl
+  | cons p rest ih =>
+    intro n
+    simp only [docEntries, ownPage, ih (n + 1)]
+    congr 1
+    apply List.map_congr_left
+    intro b _
+    exact toEntry_flipped _ _ _ b
+
+/-- **Each outline entry points into its own page** (`generate_pdf` calls
+`make_bookmark_tree(scale, transform_pages=True)`): read in pre-order, the tree lists every bookmark with
+the number of the page it lies on and the point `(x·scale, (height of that page − y)·scale)` — the height
+of *its own* page, also when the pages of the document have different heights (seeded regression C18-7
+took the height of the first page for all). -/
+theorem bookmark_targets_own_page (pages : List BPage) (scale : Rat)
+    (h : ∀ p ∈ pages, ∀ b ∈ p.bookmarks, 1 ≤ b.level) :
+    ∃ t, makeBookmarkTree pages scale true = .ok t ∧
+      (flatList 1 t).map (·.2) = (ownPage scale 0 pages).map entryItem := by
+  obtain ⟨t, ht, hflat⟩ := bookmark_tree pages scale true h
+  refine ⟨t, ht, ?_⟩
+  rw [hflat, docEntries_ownPage]
+  have hd : ∀ (ls h : List Int), (depthsFrom h ls).length = ls.length := by
+    intro ls
+    induction ls with
+    | nil => intro h; rfl
+    | cons l ls ih => intro h; simp [depthsFrom, ih]
+  have hlen : (depthsFrom [] ((pages.flatMap (·.bookmarks)).map (·.level))).length =
+      ((ownPage scale 0 pages).map entryItem).length := by
+    rw [hd, ← docEntries_ownPage, List.length_map]
+    have := congrArg List.length (docEntries_levels scale true pages 0)
+    simpa using this.symm
+  exact List.map_snd_zip (by omega)
+
+/-- Two pages of heights 500 and 300 (the demo of C18-7): the heading at y = 20 of the second page is at
+(300 − 20)·¾ = 210 pt, not (500 − 20)·¾ = 360 pt. -/
+example : ownPage (3 / 4) 0 [⟨500, [⟨1, "a", 0, 40, "open"⟩]⟩, ⟨300, [⟨1, "b", 0, 20, "open"⟩]⟩] =
+    [⟨1, "a", ⟨0, 0, 345⟩, "open"⟩, ⟨1, "b", ⟨1, 0, 210⟩, "open"⟩] := by decide +kernel
+
 end Wp.C18
